@@ -15,7 +15,7 @@ use crate::modes::search::ViSearch;
 use crate::reader::{KeyReader, RawReader};
 use crate::register::read_register;
 use crate::vic::{BinOp, BoolOp, CmdArg, Expr};
-use crate::vicmd::{Bound, LineAddr, Word};
+use crate::vicmd::{Bound, LineAddr, TextObj, Word};
 use crate::{complain_and_exit, Cmd, ExecCtx};
 
 use super::linebuf::{LineBuf, SelectAnchor, SelectMode};
@@ -387,6 +387,36 @@ impl ViCut {
 		let count = cmd.verb_count();
 		if self.mode.report_mode() == ModeReport::Insert && self.current_buffer().should_handle_block_insert() {
 			self.current_buffer().handle_block_insert();
+		}
+		if matches!(cmd.verb().unwrap().1, Verb::Change) && self.mode.report_mode() == ModeReport::Normal {
+			// A change whose motion fails ('cfx' without an x, 'cj' on the last line, 'ci(' outside parentheses)
+			// is abandoned like any other operator: nothing is taken and no text is typed.
+			// (Motions that merely cannot go further, like 'cl' on an empty line, still open the text.)
+			let can_fail = |m: &MotionCmd| matches!(m.1,
+				Motion::CharSearch(..) |
+				Motion::LineUp |
+				Motion::LineDown |
+				Motion::ToDelimMatch |
+				Motion::ToBrace(_) |
+				Motion::ToBracket(_) |
+				Motion::ToParen(_) |
+				Motion::WholeLine |
+				Motion::WholeLineExclusive |
+				Motion::EndOfLine |
+				Motion::PatternSearch(_) |
+				Motion::PatternSearchRev(_) |
+				Motion::NextMatch |
+				Motion::PrevMatch |
+				Motion::TextObj(_)
+			) && !matches!(m.1, Motion::TextObj(TextObj::Sentence(_) | TextObj::Paragraph(_)));
+			if let Some(motion) = cmd.motion.clone().filter(can_fail) {
+				let saved_col = self.current_buffer().saved_col;
+				let fails = matches!(self.current_buffer().eval_motion(Some(&Verb::Change), motion), MotionKind::Null);
+				self.current_buffer().saved_col = saved_col;
+				if fails {
+					return Ok(())
+				}
+			}
 		}
 		let mut inserting_from_visual = false;
 		let mut mode: Box<dyn ViMode> = match cmd.verb().unwrap().1 {
